@@ -194,17 +194,19 @@ def gen_system(rng, size_cap):
     elif kind in ("pair", "pair_y"):
         n = 2
     else:
-        n = rng.randint(2, size_cap)
+        u = rng.random()
+        n = rng.randint(2, 8) if u < 0.6 else rng.randint(9, 20) if u < 0.9 else rng.randint(21, max(21, size_cap))
+        n = min(n, size_cap)
     pos = gen_positions(rng, kind, n)
     n = len(pos)
     tbl = get_table()
     syms = sorted(s for s in tbl if s in SYMBOLS) or COMMON
     elems = [rng.choice(COMMON) if rng.random() < 0.85 else rng.choice(syms) for _ in range(n)]
-    # residues: consecutive blocks, sometimes interleaved; every residue gets at least one atom
+    # residues: consecutive blocks of atoms, every residue gets at least one atom.  (Topology.atoms iterates
+    # chain by chain and residue by residue, which is index order only when residues are contiguous; interleaved
+    # topologies are outside what shrake_rupley - and most of mdtraj - supports, so they are not generated.)
     nres = rng.randint(1, max(1, min(n, 1 + n // 3)))
     resid = sorted(list(range(nres)) + [rng.randrange(nres) for _ in range(n - nres)])
-    if rng.random() < 0.3:
-        rng.shuffle(resid)
     nfr = rng.choice([1, 1, 2, 3, 5])
     frames = []
     for f in range(nfr):
@@ -232,9 +234,11 @@ def gen_calls(ctx):
     rng = ctx.rng
     SYMBOLS.update(ctx.run_impl("sasa_impl.py", {"cases": []})["symbols"])
     quick = ctx.tier == "quick"
-    nsys = 70 if quick else 1200
+    nsys = 90 if quick else 2500
+    budget = 150.0 if quick else 3000.0          # estimated seconds of vm_compute (spread over 4 processes)
+    pts = sphere_points(ctx)
     groups = []
-    budget = 0.0
+    skipped = 0
     for s in range(nsys):
         nsp = rng.choice(NSP)
         cap = {1: 60, 7: 60, 60: 40, 96: 30, 960: 10}[nsp]
@@ -260,7 +264,15 @@ def gen_calls(ctx):
                 rng.shuffle(sel)
         g = dict(sysd)
         g.update(probe=probe, nsp=nsp, change=change, sel=sel)
+        cost = 2 * est_cost(g, analyse(g, pts[nsp][0]))
+        if cost > budget:
+            skipped += 1
+            if budget < 2.0:
+                break
+            continue
+        budget -= cost
         groups.append(g)
+    ctx.notes.setdefault("coverage_extra", {})["generated_systems_skipped_for_model_evaluation_budget"] = skipped
     # fixed probes first: the historical witness of the carry-over (two frames, one thread) and the documented cases
     groups.insert(0, {"kind": "witness", "elems": ["C", "O"], "resid": [0, 0], "nres": 1, "grid": GRID,
                       "xyz": [[[0, 0, 0], [_grid(0.25), 0, 0]], [[0, 0, 0], [_grid(0.30), 0, 0]]],
@@ -295,6 +307,7 @@ def analyse(g, pts64):
         amb = np.zeros(n, dtype=np.int64)
         cnt = np.zeros(n, dtype=np.int64)
         has_nb = np.zeros(n, dtype=bool)
+        n_nb = np.zeros(n, dtype=np.int64)
         for i in sel:
             c = x[i][None, :] + r[i] * pts64                        # [P,3]
             d = np.sqrt(((c[:, None, :] - x[None, :, :]) ** 2).sum(-1)) - r[None, :]   # [P,n]
@@ -306,7 +319,8 @@ def analyse(g, pts64):
             dij = np.sqrt(((x - x[i]) ** 2).sum(-1))
             dij[i] = np.inf
             has_nb[i] = bool((dij < r + r[i]).any())
-        res.append({"amb": amb, "cnt": cnt, "has_nb": has_nb})
+            n_nb[i] = int((dij < r + r[i]).sum())
+        res.append({"amb": amb, "cnt": cnt, "has_nb": has_nb, "n_nb": n_nb})
     return res
 
 
@@ -413,36 +427,92 @@ DESC_CARRY = ("shrake_rupley: a frame's areas depend on the frames the same thre
               "(outframebuffer is not reset between frames)")
 
 
-def run_groups(ctx, groups, only=None):
+def est_cost(g, an):
+    """Upper estimate (seconds of vm_compute) of one model evaluation: point-in-sphere tests."""
+    tests = 0
+    for a in an:
+        tests += int(sum(g["nsp"] * max(1, int(k)) for k in a["n_nb"])) + len(g["elems"]) ** 2 // 4
+    return 0.3 + 1e-4 * tests
+
+
+def coq_check(ctx, pts, units, procs=4):
+    """Evaluate the Gallina model once per unit (vm_compute inside coqc) and compare it, inside Coq, with each of the
+    unit's expected values; returns (indices of failed checks, errors).  Units are packed into shards of
+    comparable estimated cost, `procs` coqc processes at a time."""
+    import re
+    import time as _time
+    order = sorted(range(len(units)), key=lambda i: -units[i][0])
+    nsh = max(1, min(len(units), int(sum(u[0] for u in units) / 25.0) + procs))
+    shards = [[0.0, []] for _ in range(nsh)]
+    for i in order:
+        s = min(shards, key=lambda x: x[0])
+        s[0] += units[i][0]
+        s[1].append(i)
+    shards = [s for s in shards if s[1]]
+    shards.sort(key=lambda s: -s[0])
+    files = []
+    for si, (_c, idx) in enumerate(shards):
+        used = {units[i][1] for i in idx}
+        lines = ["From Coq Require Import ZArith List String Bool Ascii.", "Import ListNotations.",
+                 "Require Import MD.Sched.ParFor MD.Sasa.Model MD.Gen.SasaTables.", coq_prelude(pts, used)]
+        checks = []
+        for i in idx:
+            lines.append("Definition r%d : result := Eval vm_compute in (run %s)." % (i, units[i][2]))
+            for (job, exp) in units[i][3]:
+                checks.append("(%d%%nat, result_ok r%d %s)" % (job, i, exp))
+        lines.append("Definition checks : list (nat * bool) := [\n%s\n]." % ";\n".join(checks))
+        lines.append('Definition tag := "MISMATCH"%string.')
+        lines.append("Eval vm_compute in (tag, List.length checks, map fst (filter (fun c => negb (snd c)) checks)).")
+        p = os.path.join(ctx.tmp, "sasa_cases_%d_%d.v" % (int(_time.time() * 1000) % 100000000, si))
+        with open(p, "w") as fh:
+            fh.write("\n".join(lines) + "\n")
+        files.append(p)
+    bad, errors = [], []
+    running, todo = [], list(files)
+    while todo or running:
+        while todo and len(running) < procs:
+            p = todo.pop(0)
+            running.append(subprocess.Popen(["timeout", "1500", "coqc", "-Q", common.COQ, "MD", p], cwd=ctx.tmp,
+                                            stdout=subprocess.PIPE, stderr=subprocess.STDOUT, text=True))
+        pr = running.pop(0)
+        out = pr.communicate()[0]
+        if pr.returncode != 0:
+            errors.append(out[-3000:])
+            continue
+        m = re.search(r'\("MISMATCH"%string,\s*(\d+)(?:%nat)?,\s*(\[.*?\]|nil)\s*\)', out, re.S)
+        if not m:
+            errors.append("unparsed coqc output: " + out[-2000:])
+            continue
+        bad.extend(int(x) for x in re.findall(r"\d+", m.group(2)))
+    return sorted(bad), errors
+
+
+def run_groups(ctx, groups):
     pts = sphere_points(ctx)
     res = impl_calls(ctx, groups)
     analyses = [analyse(g, pts[g["nsp"]][0]) for g in groups]
     jobs = []      # (gi, mode, thr, variant)
-    coqcases = []
+    units = []     # one model evaluation each: (cost, nsp, call text, [(job index, expected text)])
     excluded = 0
     for gi, g in enumerate(groups):
         an = analyses[gi]
         excluded += int(sum(int(a["amb"].sum()) for a in an))
         for mode in ("atom", "residue"):
-            call_t = coq_call(g, mode)
+            checks = []
             for thr in THREADS:
-                if only is not None and (mode, thr) != only:
-                    continue
                 o = res[(gi, mode, thr)]
                 if "err" in o:
                     jobs.append((gi, mode, thr, "fix"))
-                    coqcases.append((call_t, "(inr %s)" % cnat(ERRNUM.get(o["err"], 9))))
+                    checks.append((len(jobs) - 1, "(inr %s)" % cnat(ERRNUM.get(o["err"], 9))))
                     continue
                 jobs.append((gi, mode, thr, "fix"))
-                coqcases.append((call_t, coq_expected(intervals(g, mode, o["rows"], an, g["nsp"]))))
+                checks.append((len(jobs) - 1, coq_expected(intervals(g, mode, o["rows"], an, g["nsp"]))))
                 if thr == "1" and len(g["xyz"]) > 1 and "rows" in res[(gi, "atom", thr)]:
                     jobs.append((gi, mode, thr, "cur"))
-                    coqcases.append((call_t, coq_expected(intervals(g, mode, o["rows"], an, g["nsp"],
-                                                                    carry_rows=res[(gi, "atom", thr)]["rows"]))))
-    used = {g["nsp"] for g in groups}
-    bad, errs = ctx.coq_mismatches(["MD.Sched.ParFor", "MD.Sasa.Model", "MD.Gen.SasaTables"],
-                                   ("call", "list (list (option (Z * Z))) + nat"), "result_ok", "run", coqcases,
-                                   shard=12, prelude=coq_prelude(pts, used))
+                    checks.append((len(jobs) - 1, coq_expected(intervals(g, mode, o["rows"], an, g["nsp"],
+                                                                         carry_rows=res[(gi, "atom", thr)]["rows"]))))
+            units.append((est_cost(g, an), g["nsp"], coq_call(g, mode), checks))
+    bad, errs = coq_check(ctx, pts, units)
     if errs:
         ctx.break_("correspondence:coqc-evaluation", "\n".join(errs))
         return
@@ -456,8 +526,6 @@ def run_groups(ctx, groups, only=None):
         nontriv = any(bool((a["has_nb"] & (a["cnt"] > 0)).any()) for a in an)
         for mode in ("atom", "residue"):
             for thr in THREADS:
-                if only is not None and (mode, thr) != only:
-                    continue
                 case = case_of(g, mode, thr)
                 ctx.count(case, nontrivial=nontriv,
                           bucket="%s/nsp=%d/%s/thr=%s/frames=%d" % (g["kind"], g["nsp"], mode, thr, len(g["xyz"])))
@@ -489,7 +557,7 @@ def oracle_one(g, mode, o, an):
     """Independent float64 evaluation of one call: returns None when it agrees with the implementation,
     else (description, expected, kind)."""
     if "err" in o:
-        return ("raises %s on a valid call" % o["err"], "areas", "raises")
+        return ("raises on a valid call", o["err"], "raises")
     mapping, ng = groups_of(g, mode)
     n = len(g["elems"])
     sel = set(range(n)) if g["sel"] is None else set(g["sel"])
@@ -497,7 +565,7 @@ def oracle_one(g, mode, o, an):
     const = 4.0 * math.pi / g["nsp"]
     for f, row in enumerate(o["rows"]):
         if len(row) != ng:
-            return ("returns %d columns for %d groups" % (len(row), ng), ng, "shape")
+            return ("wrong number of output columns", {"columns": len(row), "groups": ng}, "shape")
         want = [0.0] * ng
         slack = [0.0] * ng
         has = [False] * ng
@@ -510,8 +578,9 @@ def oracle_one(g, mode, o, an):
             w = want[gi] if (has[gi] or g["sel"] is None) else -1.0
             if abs(row[gi] - w) > slack[gi] + 2 * EPS * abs(w) + 1e-9:
                 kind = "minus1" if (w == -1.0 or row[gi] == -1.0) else "area"
-                return ("frame %d column %d is %.7g, expected %.7g on the documented point set" % (f, gi, row[gi], w),
-                        {"frame": f, "column": gi, "value": w}, kind)
+                what = ("a column is/is not -1 against the selection" if kind == "minus1" else
+                        "an area differs from the independent evaluation on the documented point set")
+                return (what, {"frame": f, "column": gi, "expected": w, "observed": row[gi]}, kind)
     return None
 
 
